@@ -18,11 +18,14 @@ def main():
     src, sid, prop, demo = sys.argv[1:5]
     checks = [prop]
     tier = "quick"
+    runflag = ""
     for a in sys.argv[5:]:
         if a.startswith("--checks="):
             checks = a.split("=", 1)[1].split(",")
         if a.startswith("--tier="):
             tier = a.split("=", 1)[1]
+        if a.startswith("--run="):
+            runflag = "-run '%s' " % a.split("=", 1)[1]
     patch = os.path.join(src, "patch.diff")
     wt = "/tmp/wt_eval_%s" % sid
     sh("git -C /repo worktree remove --force %s" % wt)
@@ -38,11 +41,11 @@ def main():
         demo_src = os.path.join(os.path.dirname(src.rstrip("/")), "..", demo)
         demo_src = os.path.normpath(demo_src)
         shutil.copytree(demo_src, os.path.join(wt, demo), dirs_exist_ok=True)
-        rc1, out1 = sh("go test -vet=off -count=1 ./%s/... 2>&1 | tail -15" % demo, cwd=wt, timeout=900)
-        rc, _ = sh("go test -vet=off -count=1 ./%s/... >/dev/null 2>&1" % demo, cwd=wt, timeout=900)
+        rc1, out1 = sh("go test -vet=off -count=1 %s./%s/... 2>&1 | tail -15" % (runflag, demo), cwd=wt, timeout=900)
+        rc, _ = sh("go test -vet=off -count=1 %s./%s/... >/dev/null 2>&1" % (runflag, demo), cwd=wt, timeout=900)
         meta["demo_with_patch"] = "FAIL" if rc != 0 else "pass"
         sh("git apply -R %s" % patch, cwd=wt)
-        rc, _ = sh("go test -vet=off -count=1 ./%s/... >/dev/null 2>&1" % demo, cwd=wt, timeout=900)
+        rc, _ = sh("go test -vet=off -count=1 %s./%s/... >/dev/null 2>&1" % (runflag, demo), cwd=wt, timeout=900)
         meta["demo_without_patch"] = "pass" if rc == 0 else "FAIL"
         meta["ran"].append("go test ./%s/... with patch: %s; without patch: %s" % (demo, meta["demo_with_patch"], meta["demo_without_patch"]))
     finally:
